@@ -5,7 +5,7 @@ import ast
 
 from .core import rule
 from .model import AnalysisError, dotted, norm, walk_own
-from .paths import (Parents, guards_of, flat_guards, flatten_guard, np_atom, strip_not, cmp_atom, swap_cmp, isinstance_atom,
+from .paths import (resolve_on_path, Parents, guards_of, flat_guards, flatten_guard, np_atom, strip_not, cmp_atom, swap_cmp, isinstance_atom,
                     enumerate_paths, decision_table, resolve_local, always_exits, eval3, handlers_of, inline_call, ret_expr)
 from .pat import has, find, first, name_of, match, _parse
 from .rules_t import validator_classes, class_keywords, kwonly, own_init, element_family
@@ -297,7 +297,7 @@ def _try_semantics(ctx, func, call_pats, on_success, on_failure, body=None, succ
                 return False
             if _exit_label(p) not in on_failure:
                 return False
-            if failure_ret is not None and p.exit == "return" and not failure_ret(p.exit_node.value, [st[1] for st in p.stmts if isinstance(st, tuple) and st[0] == "handler"][0]):
+            if failure_ret is not None and p.exit == "return" and not failure_ret(resolve_on_path(p.exit_node.value, p), [st[1] for st in p.stmts if isinstance(st, tuple) and st[0] == "handler"][0]):
                 return False
         elif "CALL" in evs:
             saw_call = True
@@ -305,7 +305,7 @@ def _try_semantics(ctx, func, call_pats, on_success, on_failure, body=None, succ
                 return False  # the call is not protected
             if _exit_label(p) not in on_success:
                 return False
-            if success_ret is not None and p.exit == "return" and not success_ret(p.exit_node.value):
+            if success_ret is not None and p.exit == "return" and not success_ret(resolve_on_path(p.exit_node.value, p)):
                 return False
     if not saw_call or not saw_handler:
         return None
@@ -838,13 +838,24 @@ def g4(ctx, res):
               reason="the composition verdict is the Draft-6 count of successful branches")
     a1 = ctx.func("_attempt_schema")
     e, v, pr = [p.name for p in a1.params[:3]]
+    oc = ctx.cls("Outcome")
+    fields = [st.target.id for st in oc.node.body if isinstance(st, ast.AnnAssign) and isinstance(st.target, ast.Name)]
+
+    def outcome(x):
+        """{field: text} of an Outcome(...) call, positional and keyword arguments alike; None if not such a call."""
+        if not (isinstance(x, ast.Call) and dotted(x.func) == "Outcome") or len(fields) != 3:
+            return None
+        got = {f_: "None" for f_ in fields}
+        for f_, a_ in zip(fields, x.args):
+            got[f_] = norm(a_)
+        for k_ in x.keywords:
+            if k_.arg in got:
+                got[k_.arg] = norm(k_.value)
+        return got
     verdict = _try_semantics(
         ctx, a1, [f"{e}({v}, {pr})"], {"return"}, {"return"},
-        success_ret=lambda x: match(_parse(f"Outcome({e}, result={e}({v}, {pr}), error=None)"), x) is not None
-        or match(_parse(f"Outcome({e}, {e}({v}, {pr}), None)"), x) is not None or match(_parse(f"Outcome({e}, result={e}({v}, {pr}))"), x) is not None,
-        failure_ret=lambda x, h: h.name is not None and (match(_parse(f"Outcome({e}, result=None, error={h.name})"), x) is not None
-                                                        or match(_parse(f"Outcome({e}, None, {h.name})"), x) is not None
-                                                        or match(_parse(f"Outcome({e}, error={h.name})"), x) is not None))
+        success_ret=lambda x: outcome(x) == dict(zip(fields, [e, f"{e}({v}, {pr})", "None"])),
+        failure_ret=lambda x, h: h.name is not None and outcome(x) == dict(zip(fields, [e, "None", h.name])))
     res.judge(verdict, a1, "success -> Outcome(result), (TypeError, ValidationError) -> Outcome(error)",
               reason="exactly the library's rejection exceptions count as a failed branch")
     nc = ctx.cls("Not").methods["construct"]
@@ -876,7 +887,7 @@ def _vc_label(p, iter_text, construct_pat, prop, arg=None):
     loop over the validators is on the path, 'partial(X)' when the loop on the
     path can skip validators.  None when the exit is not a construction."""
     if construct_pat is not None:
-        e = p.exit_node.value
+        e = ret_expr(p)
         b = match(_parse(construct_pat), e) if e is not None else None
         if b is None:
             return None
@@ -900,7 +911,7 @@ def g5(ctx, res):
     for p in enumerate_paths(vcall.body):
         if p.exit != "return":
             continue
-        e = p.exit_node.value
+        e = ret_expr(p)
         t = norm(e) if e is not None else "None"
         lab = _vc_label(p, "self.validators", "self.construct(MV_x, %s)" % prop, prop)
         if lab is not None:
@@ -950,12 +961,12 @@ def g5(ctx, res):
     nbody_ = V(ctx, new).body
     labels = {}
     for p in enumerate_paths(nbody_):
-        if p.exit != "return" or p.exit_node.value is None:
+        if p.exit != "return" or ret_expr(p) is None:
             continue
-        if norm(p.exit_node.value) != f"object.__new__({cls})":
+        if norm(ret_expr(p)) != f"object.__new__({cls})":
             continue
         lab = _vc_label(p, f"{cls}.validators", None, prop, arg=v)
-        labels.setdefault(lab, set()).add(norm(p.exit_node.value))
+        labels.setdefault(lab, set()).add(norm(ret_expr(p)))
     verdict = True if set(labels) == {f"build({v})"} else (False if any(k != f"build({v})" for k in labels) else None)
     res.judge(verdict, new, "for validator in cls.validators: validator(value, property_); return object.__new__(cls)",
               detail={"exits": {str(k): sorted(x) for k, x in labels.items()}},
@@ -976,9 +987,13 @@ def g5(ctx, res):
 
 
 # ---------------------------------------------------------------------- G6
-def _default_table(func, value_name, default_text, build_label, res, what):
-    """Decision table over A = NP(value), B = NP(default)."""
+def _default_table(func, value_name, default_text, build_label, res, what, assume_false=()):
+    """Decision table over A = NP(value), B = NP(default).  Conditions whose
+    text is in `assume_false` are taken as false (a case treated elsewhere)."""
     def rec(e):
+        t0, p0 = strip_not(e)
+        if norm(t0) in assume_false:
+            return ("Z", p0)
         a = np_atom(e)
         if a is None:
             return None
@@ -993,12 +1008,13 @@ def _default_table(func, value_name, default_text, build_label, res, what):
             return "raise"
         if p.exit == "fall":
             return "fall"
-        e = p.exit_node.value
+        e = ret_expr(p)
         t = norm(e) if e is not None else "None"
         in_handler = any(isinstance(s, tuple) and s[0] == "handler" for s in p.stmts)
         return build_label(t, in_handler)
 
-    table, opaque = decision_table(func.body, ["A", "B"], rec, classify)
+    table, opaque = decision_table(func.body, ["A", "B", "Z"], rec, classify)
+    table = {k[:2]: v_ for k, v_ in table.items() if k[2] is False}
     return table, opaque
 
 
@@ -1051,13 +1067,8 @@ def g6(ctx, res):
         return "other:" + t
 
     # strip the isinstance(value, cls) pass-through (sibling difference, checked by P5)
-    body = [st for st in V(ctx, new).body if not (isinstance(st, ast.If) and norm(st.test) == f"isinstance({v}, {cls})")]
-
-    class _F:  # minimal stand-in with a body, for decision_table
-        pass
-    fake = _F()
-    fake.body = body
-    table2, opaque2 = _default_table(fake, v, f"{cls}.default", label_new, res, "Object.__new__")
+    table2, opaque2 = _default_table(V(ctx, new), v, f"{cls}.default", label_new, res, "Object.__new__",
+                                     assume_false=(f"isinstance({v}, {cls})",))
     truthy_misuse2 = bool(set(opaque2) & {v, f"{cls}.default"})
     res.judge(True if table2 == want else (None if (opaque2 and not truthy_misuse2) else False), new, "same default decision as Element.__call__ (sibling cross-check)",
               detail={"opaque": sorted(opaque2), "table": {str(k): sorted(x) for k, x in table2.items()}},
@@ -1069,7 +1080,7 @@ def g6(ctx, res):
     init = ctx.func("Object.__init__")
     v = init.params[1].name
     ok = False
-    for n in V(ctx, init, keep=(v,)).body:
+    for n in walk_own(V(ctx, init, keep=(v,)).body):
         if isinstance(n, ast.If) and len(n.body) == 1 and has(f"{v} = self.default", n.body) and not n.orelse:
             good = True
             for a in (True, False):
